@@ -206,7 +206,13 @@ impl Prop for C13 {
     }
     fn explore(&self, ctx: &Ctx, findings: &Findings, ev: &mut Evidence) -> Result<(), String> {
         let q = ctx.tier == Tier::Quick;
-        let bases = base_requests(true);
+        let mut bases = base_requests(true);
+        // external nullifiers at the boundary of the alias domain: v* = 2^256 - 5p is the smallest value whose fifth
+        // alias no longer fits 32 bytes; just below it the largest alias has its top limb (and more) all ones
+        let vstar = pow2(256) - p() * big(5);
+        for d in [big(1), big(1) + pow2(64), big(1) + pow2(130), big(1) + pow2(191), pow2(192)] {
+            bases.push(Req { ext: &vstar - d, ..Req::default_req() });
+        }
         let proved = par_map(&bases, ncpu(), |_, r| {
             with_rln(|rln| {
                 let s = setup_tree(rln, r)?;
